@@ -7,7 +7,8 @@ from .decks import WORLD_SURF
 FAMILIES = ['inter', 'union-first', 'union-last', 'union-none', 'nested',
             'compl-expr', 'compl-cell', 'partition', 'repeat',
             'contradiction', 'multi', 'shared', 'imp0-middle',
-            'compl-cell-in-expr', 'union-compl-first', 'mixed']
+            'compl-cell-in-expr', 'union-compl-first', 'compl-forward',
+            'compl-trcl', 'mixed']
 
 SIMPLE_KINDS = [('px', 'any'), ('py', 'any'), ('pz', 'any'), ('p', 'general'),
                 ('s', 'any'), ('so', 'any'), ('c/z', 'any'), ('cx', 'any'),
@@ -118,6 +119,23 @@ def build(rng, family):
                     base = M.OR(base, M.AND(lit(rng, sids),
                                             M.CELLC(rng.choice(refs))))
             exprs.append(base)
+    elif family in ('compl-forward', 'compl-trcl'):
+        # #n in any direction of the cell block: a cell may complement cells
+        # written after it (no cycles: references follow a hidden order).
+        # In compl-trcl some of the complemented cells carry a TRCL.
+        rank = list(range(1, ncell + 1))
+        rng.shuffle(rank)              # rank[i-1] = position in hidden order
+        for idx in range(1, ncell + 1):
+            base = rand_expr(rng, sids, 2)
+            lower = [j for j in range(1, ncell + 1)
+                     if rank[j - 1] < rank[idx - 1]]
+            if lower:
+                refs = rng.sample(lower, min(len(lower), rng.randint(1, 2)))
+                base = M.AND(base, *[M.CELLC(r) for r in refs])
+                if rng.random() < 0.3:
+                    base = M.OR(base, M.AND(lit(rng, sids),
+                                            M.CELLC(rng.choice(refs))))
+            exprs.append(base)
     elif family == 'compl-cell-in-expr':
         # #( ... #n ... ): the complement of an expression that itself
         # contains the complement of a cell
@@ -200,10 +218,34 @@ def build(rng, family):
                                  rho=f'-{mat}.{rng.randint(1, 9)}',
                                  geom=M.AND(expr, M.S(-WORLD_SURF)),
                                  imp={'n': imps.get(num, '1')}))
+    if family == 'compl-trcl':
+        from .gen_surf import motion_of_class, tr_card, tr_spec
+        from .mcnp_ref import Motion
+        refd = sorted({r for c in deck.cells for r in M.expr_cellrefs(c.geom)})
+        movers = rng.sample(refd, min(len(refd), rng.randint(1, 3)))
+        if len(deck.cells) > 1 and rng.random() < 0.5:
+            movers.append(rng.choice([c.id for c in deck.cells]))
+        for k, cid in enumerate(sorted(set(movers)), start=1):
+            cls = rng.choice(['translation', 'generic', 'quarter', 'flip-z'])
+            mot = Motion([rnd(rng, -2, 2) for _ in range(3)],
+                         motion_of_class(rng, cls).b)
+            if rng.random() < 0.4:
+                deck.trs.append(tr_card(rng, k, mot,
+                                        rng.choice(['12', 'star', '13'])))
+                spec = M.TrSpec(number=k)
+            else:
+                spec = tr_spec(rng, mot, 'inline3' if cls == 'translation'
+                               else rng.choice(['inline12', 'star']))
+            deck.cell(cid).trcl = spec
+        deck.tags.add('compl.trcl')
     for mat in (1, 2, 3):
         deck.mats.append(M.Material(mat, [('13027', '1')]))
     deck.cells.append(M.Cell(900, mat=0, geom=M.S(WORLD_SURF), imp={'n': '0'}))
     deck.tags.add(f'c01.{family}')
+    if rng.random() < 0.25:
+        # the order of the cards inside a block is free in MCNP
+        rng.shuffle(deck.surfs)
+        deck.tags.add('cards.unordered')
     if mixed:
         deck.tags.add('c01.mixed')
     if has_cellc_in_not(deck):
